@@ -137,3 +137,33 @@ package coregex
 //@   loop 2: invariant forall k :: 0 <= k && k < i ==> buf[k + nspec(s, k + 1)] == s[k]
 //@   loop 2: invariant forall k :: 0 <= k && k < i && special(s[k]) ==> buf[k + nspec(s, k)] == '\\'
 //@   loop 2: decreases len(s) - i
+
+// ---- Split (C08) ----
+// shape of FindAllStringIndex results (the enumeration itself is C04): ASSUMED here because the [][]int packing
+// (compactToSliceOfSlice) is proved separately
+//@ trusted func (*Regex).FindAllStringIndex
+//@   requires regexOK(r)
+//@   modifies @searchState
+//@   ensures forall k :: 0 <= k && k < len(result) ==> result[k] != nil && len(result[k]) == 2 && 0 <= result[k][0] && result[k][0] <= result[k][1] && result[k][1] <= len(s)
+//@   ensures forall k :: 0 <= k && k + 1 < len(result) ==> result[k][1] <= result[k+1][0] && result[k][0] < result[k+1][0]
+//@   ensures n > 0 ==> len(result) <= n
+//@   ensures fresh(result) || result == nil
+
+//@ func (*Regex).Split
+//@   props C08 C07 C05
+//@   requires regexOK(r) && len(s) <= 140737488355328
+//@   modifies @searchState
+//@   ensures n == 0 ==> result == nil
+//@   ensures n > 0 ==> len(result) <= n
+//@   ensures n == 1 && len(s) > 0 ==> len(result) == 1 && base(result[0]) == base(s) && off(result[0]) == off(s) && len(result[0]) == len(s)
+//@   ensures len(s) == 0 && len(r.pattern) > 0 && n != 0 ==> len(result) == 1 && len(result[0]) == 0
+//@   ensures forall k :: 0 <= k && k < len(result) ==> len(result[k]) == 0 || (base(result[k]) == base(s) && off(s) <= off(result[k]) && off(result[k]) + len(result[k]) <= off(s) + len(s))
+//@   ensures forall k :: 0 <= k && k + 1 < len(result) ==> off(result[k]) + len(result[k]) <= off(result[k+1])
+//@   loop 1: invariant -1 <= rangeindex && rangeindex <= rangelen && rangelen == len(matches) && 0 <= beg && beg <= len(s) && 0 <= end && end <= len(s) && n != 0
+//@   loop 1: invariant len(pieces) <= rangeindex + 1 && (n <= 0 || len(pieces) <= n - 1) && fresh(pieces)
+//@   loop 1: invariant rangeindex >= 0 ==> beg == matches[rangeindex][1] && end <= beg
+//@   loop 1: invariant rangeindex == -1 ==> beg == 0 && end == 0
+//@   loop 1: invariant n == 1 ==> len(pieces) == 0 && beg == 0 && end == 0
+//@   loop 1: invariant forall k :: 0 <= k && k < len(pieces) ==> base(pieces[k]) == base(s) && off(s) <= off(pieces[k]) && off(pieces[k]) + len(pieces[k]) <= off(s) + end
+//@   loop 1: invariant forall k :: 0 <= k && k + 1 < len(pieces) ==> off(pieces[k]) + len(pieces[k]) <= off(pieces[k+1])
+//@   loop 1: decreases rangelen - rangeindex
